@@ -113,6 +113,20 @@ def duplex_cases(rng, n):
     return out
 
 
+def flagged_cases(rng, n):
+    """sequences in which one packet carries the (unimplemented) encryption flag 0x80 in its type byte: whether the writer refuses it or
+    the reader does, the packets before it round-trip and a refusal leaves no byte on the wire (Go-side predicate only)"""
+    out = []
+    for _ in range(n):
+        pk = [rand_pkt(rng, 200) for _ in range(rng.choice([2, 3, 4]))]
+        i = rng.randrange(len(pk))
+        pk[i] = dict(pk[i], ty=(pk[i]["ty"] & 0x3F) | 0x80, compress=False)
+        pk[i].pop("cmd", None)
+        pk[i]["body"] = pk[i].get("body") or "0102"
+        out.append({"mode": "pk", "pkts": pk, "cuts": rng.choice([[], [1] * 400, [3] * 200]), "big": True})
+    return out
+
+
 def header_straddle_cases(rng):
     """every cut offset 0..6 relative to every packet start of a 3-packet stream"""
     out = []
@@ -274,7 +288,7 @@ def run(ctx, only_cases=None):
     raw = raw_mutations(ctx, wires, 12 if thorough else 6) if only_cases is None else []
     outs += vlib.run_harness(binary, raw, timeout=900) if raw else []
     cases += raw
-    big = big_cases(ctx, thorough) if only_cases is None else []
+    big = (big_cases(ctx, thorough) + flagged_cases(ctx.rng, 200 if thorough else 30)) if only_cases is None else []
     bouts = vlib.run_harness(binary, big, timeout=900) if big else []
 
     # (iii) the property predicate evaluated on the implementation's own outputs
